@@ -79,7 +79,7 @@ def _run(prop, tier, seed, replay, work, t0):
             args += ['--only', str(replay['b'])]
         else:
             args += ['--shard', str(shard), '--nshards', str(nsh)]
-        stats = json.loads(common.run_py(args).strip().splitlines()[-1])
+        stats = json.loads(common.run_py(args, optimize=(shard % 2 == 1 and replay is None)).strip().splitlines()[-1])
         if stats['events'] == 0:
             return stats, [], 0, {'distinct': 0, 'generated': 0}, out
         mism, consumed, r = common.validate_trace('TraceCtx', 'TraceCtx.cfg', out, work)
